@@ -75,6 +75,7 @@ def run(model, res, tier):
     res.rule('R8', 'a negative serial converts to #NUM!')
     res.rule('R9', 'text-to-number coercion: int() first, float() second, else unchanged')
     res.rule('R10', 'no cache or shared state on the arithmetic path')
+    res.rule('R11', 'the table\'s date converters are the exact serial maps (inverse, strictly monotone, Excel 1900 system; shared with C13.R2)')
     res.trusted += ['hxsa abstract interpreter and builtin models', 'CPython ast']
     res.assumptions += ['date converters summarised on date-time input (C13 validates them)']
     opaque = H.date_opaque(model)
@@ -87,6 +88,10 @@ def run(model, res, tier):
     _concat(model, res, c, g, acts, opaque)
     _to_number(model, res, opaque)
     _pre1900(model, res, opaque, E)
+    from . import c13
+    um = [mm for mm in model.modules.values() if 'serialize_date' in mm.functions and 'parse_date' in mm.functions]
+    if um:
+        H.borrow(res, 'R11', 'date converters', lambda tmp: c13._r2(model, tmp, c, um[-1]))
     m, f = acts['arith']
     region = c.cg.reachable([(m.name, m.qualname_of(f))])
     purity.check_region(res, c, 'R10', None, region, 'arithmetic')
